@@ -230,6 +230,7 @@ class Run:
         self.step_capped = False
         self.wall_capped = False
         self.unit_peptides = {}    # 'kind|tx|uid' -> peptide sequences the unit returned
+        self.natural_failed = []   # ('kind|tx|uid', exception class) of units that raised without injection
 
 
 DEFAULT_CONFIG = {
@@ -359,7 +360,12 @@ class Seams:
                     return {}, None, None
                 f = faults.get(key)
                 if f is None and not count_units:
-                    r = orig(*a, **k)
+                    try:
+                        r = orig(*a, **k)
+                    except Exception as e:  # pylint: disable=broad-except
+                        # a unit that fails by itself (no injection): recorded, then passed on untouched
+                        run.natural_failed.append((key, type(e).__name__))
+                        raise
                     run.units.append((kind, run.current_tx, uid, None, len(r[0])))
                     run.unit_peptides[key] = sorted(str(x) for x in r[0])
                     return r
